@@ -704,6 +704,41 @@ pub fn run_session<C: Autocomplete + Help>(
                         // the line come back intact below the output is C06's row / column clause on this very call
                     } else if !contains(&call_bytes, tconv.as_bytes()) {
                         found!("C13", P_C13, "write-text-altered", lf_tag(calls), i, "sink bytes {} do not contain the text {:?} with LF->CRLF", show_bytes(&call_bytes), t);
+                    } else if term.gave_up.is_some() || !Term::understands(tprime.as_bytes()) {
+                        // the text holds bytes the emulator does not interpret (ESC, TAB, NUL, ...): what *follows* the text must still
+                        // put prompt + line on a fresh line with the cursor restored. A fresh emulator that stands at column 1 when
+                        // the text left the line open (so that a missing line break shows) is fed the bytes after the text.
+                        if !tconv.is_empty() {
+                            rep.eval();
+                            rep.count("c13.write_tail_checked");
+                            // the text may also occur inside what the library writes around it (a lone CR, say): some occurrence
+                            // must be followed by a proper redraw
+                            let want = format!("{}{}", prompt, post_line);
+                            let want_row = if needs_break { 1 } else { 0 };
+                            let mut verdicts: Vec<Result<(), String>> = vec![];
+                            for pos in (0..=call_bytes.len() - tconv.len()).filter(|&p| &call_bytes[p..p + tconv.len()] == tconv.as_bytes()) {
+                                let after = &call_bytes[pos + tconv.len()..];
+                                let mut fresh = Term::new();
+                                if needs_break {
+                                    fresh.feed(b"#");
+                                }
+                                fresh.feed(after);
+                                if fresh.gave_up.is_some() || !fresh.at_boundary() {
+                                    continue;
+                                }
+                                let rows = fresh.all_rows_trimmed();
+                                if fresh.row != want_row || fresh.cur_row_trimmed() != want.trim_end_matches(' ') || (needs_break && rows[0] != "#") {
+                                    verdicts.push(Err(format!("after the text {:?} the bytes {} leave the rows {:?} (cursor row {}), expected the prompt and the line {:?} on {}", t, show_bytes(after), tail(&rows, 3), fresh.row, want, if needs_break { "the next row" } else { "the row the text ended on" })));
+                                } else if fresh.col != prompt.chars().count() + post.cursor {
+                                    verdicts.push(Err(format!("after write the terminal cursor is at column {}, the editor cursor at {}", fresh.col, prompt.chars().count() + post.cursor)));
+                                } else {
+                                    verdicts.push(Ok(()));
+                                }
+                            }
+                            if !verdicts.is_empty() && verdicts.iter().all(|v| v.is_err()) {
+                                found!("C13", P_C13, "write-rows", format!("after-raw-text-{}", lf_tag(calls)), i, "{}", verdicts[0].clone().unwrap_err());
+                            }
+                        }
                     } else if term.gave_up.is_none() {
                         // rows: before-rows with the in-progress row replaced by rows(T') + prompt+line
                         let (before_rows, before_row) = pre_rows.clone().unwrap();
